@@ -765,6 +765,34 @@ impl Machine {
                     }
                 }
             }
+            (b"hashfin", 4) => {
+                // the provided one-shot helpers `hash64/128/256(self, data)` on an ALREADY FED hasher
+                let h = handle!(1);
+                let Some(len) = unhex(toks[3], scratch) else { bad!() };
+                let Some(s) = self.hs[h].take() else {
+                    out.s("nohandle");
+                    return;
+                };
+                let d_ = &scratch[..len];
+                match toks[2] {
+                    b"64" => {
+                        let r = each!(s, x => x.hash64(d_));
+                        out.u64_hex(r);
+                    }
+                    b"128" => {
+                        let r = each!(s, x => x.hash128(d_));
+                        out.u64_hex(r[0]);
+                        out.u64_hex(r[1]);
+                    }
+                    b"256" => {
+                        let r = each!(s, x => x.hash256(d_));
+                        for v in r {
+                            out.u64_hex(v);
+                        }
+                    }
+                    _ => bad!(),
+                }
+            }
             (b"hashone", 6) => {
                 // `HighwayBuildHasher::new(key).hash_one(value)`
                 let (Some(a), Some(b), Some(c), Some(d)) =
